@@ -35,7 +35,7 @@ func (c06) Meta() fw.Meta {
 			"both libraries run on the same virtual clock (whispertool.Now / explicit now, whisper.Now); clock domain as C01 but below 2^31 + 2^30 so that go-whisper's int arithmetic and the 32-bit file fields agree",
 			"go-whisper at the version pinned by the repository's go.mod is the reference",
 		},
-		Obligations: []string{"format_checks", "nonempty_slots_checked", "metadata_compared", "windows_compared", "whispertool_written_sessions", "gowhisper_written_sessions", "alternating_files", "values_compared_non_nan", "stale_or_empty_compared", "far_jumps", "reader_clock_behind_windows", "created_over_existing_longer_file", "cli_written_files_checked", "cli_created_with_nothing_to_copy"},
+		Obligations: []string{"format_checks", "nonempty_slots_checked", "metadata_compared", "windows_compared", "whispertool_written_sessions", "gowhisper_written_sessions", "alternating_files", "values_compared_non_nan", "stale_or_empty_compared", "far_jumps", "windows_from_epoch_or_2_31_back", "reader_clock_behind_windows", "created_over_existing_longer_file", "cli_written_files_checked", "cli_created_with_nothing_to_copy"},
 	}
 }
 
@@ -368,6 +368,11 @@ func (c06) Run(c *fw.Ctx) {
 			case 3:
 				from = now - l.MaxRet() - r.Int63n(int64(l.MaxStep())*3+1)
 				until = now + r.Int63n(100)
+				if r.Intn(2) == 0 {
+					// reaching back to the epoch / around 2^31 seconds before the clock
+					from = []int64{0, 1, now - 1<<31 - 1, now - 1<<31, now - 1<<31 + 1}[r.Intn(5)]
+					c.Count("windows_from_epoch_or_2_31_back", 1)
+				}
 			default:
 				from = now - r.Int63n(l.MaxRet()+1)
 				until = from + r.Int63n(now-from+1)
